@@ -781,7 +781,7 @@ func assumptions(engine string) []string {
 	switch engine {
 	case "client":
 		base = append(base, "preconditions enforced by the generator: transaction ids unique among transactions in flight, monotone clock, collector Close succeeds, Read returns after Close began under WithNoConnClose, responses at most the reader's 1024-byte buffer (longer ones appear as truncated/undecodable)",
-			"the oracle trusts stun.Message.Decode for classifying datagrams as decodable")
+			"datagrams are classified as decodable by the harness's own framing check (header, cookie, declared length, attribute TLVs); the library's decoder is cross-checked against it (probe decoder_disagrees_with_harness_framing)")
 	case "agent":
 		base = append(base, "handlers never re-enter the agent from a closed event (excluded by the property)", "histories fed to porcupine are capped at 60 operations; Unknown (timeout) is counted, never reported")
 	}
